@@ -10,6 +10,7 @@ mod c10;
 mod c11;
 mod c12;
 mod c15;
+mod c16;
 mod c18;
 mod c20;
 mod common;
@@ -18,6 +19,7 @@ mod e2;
 mod e3;
 mod model;
 mod oracle;
+mod zachary;
 
 use common::*;
 use std::time::Instant;
@@ -42,6 +44,7 @@ macro_rules! dispatch {
             "C11" => c11::$f($($a),*),
             "C12" => c12::$f($($a),*),
             "C15" => c15::$f($($a),*),
+            "C16" => c16::$f($($a),*),
             "C18" => c18::$f($($a),*),
             "C20" => c20::$f($($a),*),
             _ => { eprintln!("unknown property {}", $id); std::process::exit(2) }
